@@ -632,6 +632,20 @@ def nest_dispatch(ctx: Ctx) -> None:
                 rs = fl.roots(g.iter, cfg_of(d).node_of(comps[0]))
                 ok = all(r.startswith("param:") or ".args" in r for r in rs)
         ctx.ob(d, comps[0] if comps else d.node, ok, f"{d.name}: the dispatcher is applied to every argument, in order, without filter", sel=f"dispatch:all-args:{d.name}")
+        # ... with the predecessor dictionary the factory was given — not a derived one
+        # (a memoising or filtering wrapper makes two occurrences of one key share one
+        # FunctionArgs, i.e. one single-use block iterator)
+        if comps and len(comps[0].elt.args) >= 2 and d.parent is not None:
+            a1 = comps[0].elt.args[1]
+            okd = isinstance(a1, ast.Name) and a1.id in d.parent.params and not flow_of(repo, d).rdefs(a1.id, cfg_of(d).node_of(comps[0]))
+            ctx.ob(
+                d,
+                comps[0],
+                okd,
+                f"{d.name}: the dispatcher looks predecessors up in the dictionary the factory received (`{unparse(a1, 40)}`)"
+                + ("" if okd else " — a dictionary built inside the fused function (cache / wrapper): repeated occurrences of one predecessor key no longer get their own key-function result"),
+                sel=f"dispatch:own-dict:{d.name}",
+            )
     # (iv) pass-through on missing name
     k1 = repo.get(f"{A.PBW}._apply_blockwise_key_func_to_chunk_key")
     c1 = cfg_of(k1)
